@@ -35,9 +35,11 @@ func Generate(out *trace.W, o RunOpts) map[string]int {
 	return stats
 }
 
-func worldFor(r *rand.Rand) *World {
+func worldFor(r *rand.Rand) *World { return worldWith(r, []uint32{3, 6, 7, 6, 3, 0}) }
+
+func worldWith(r *rand.Rand, decimals []uint32) *World {
 	o := DefaultOpts()
-	o.Decimals = []uint32{3, 6, 7, 6, 3, 0}[r.Intn(6)]
+	o.Decimals = decimals[r.Intn(len(decimals))]
 	o.BaseFee = []int64{2, 5, 10}[r.Intn(3)]
 	o.UnbondingSecs = []int64{20, 20, 40}[r.Intn(3)]
 	o.MaxEntries = []uint32{3, 2}[r.Intn(2)]
@@ -47,7 +49,7 @@ func worldFor(r *rand.Rand) *World {
 // matrix: every state-changing method through every kind of caller, in an order that makes each succeed at least
 // once, followed by the characteristic refusals (transitive redelegation, too many entries, foreign recipient).
 func matrix(out *trace.W, r *rand.Rand, tid string, stats map[string]int) {
-	w := worldFor(r)
+	w := worldWith(r, []uint32{3, 6}) // thresholds 1 and 10^3: every reward accrued over one fee-paying block is claimable
 	st := w.Genesis(out, tid)
 	c := w.C
 	n := 0
@@ -80,6 +82,14 @@ func matrix(out *trace.W, r *rand.Rand, tid string, stats map[string]int) {
 		step(d, Op{M: "undelegate", V: "v0", Amt: 1})
 		step(d, Op{M: "undelegate", V: "v0", Amt: 1})
 		step(d, Op{M: "undelegate", V: "v0", Amt: 1}) // with 40 s unbonding time or 2 entries: refused
+		if IsContract(d) {
+			// transfer() funded by the rewards the same call claims: the contract holds ~10^3 liquid next to rewards of
+			// 10^4..10^6 accrued over the fee-paying blocks above.  Amounts on both borders:
+			// liquid+claimable+1 (refused), liquid+1 and liquid+claimable (paid for by the claimed rewards), liquid (plain)
+			for _, k := range []int{4, 2, 3, 1, 0} {
+				step(d, Op{M: "transfer", To: d, Amt: w.EdgeAmount(preOf(st, w), d, k)})
+			}
+		}
 		w.Views(out, c, []string{d, "a0"})
 	}
 	// two calls in one transaction
